@@ -7,6 +7,8 @@ import (
 	"fmt"
 	"os"
 	"strings"
+	"sync"
+	"time"
 
 	"github.com/evanw/esbuild/pkg/api"
 )
@@ -46,12 +48,33 @@ type synResp struct {
 	InfraError string `json:"infraError"`
 }
 
+// oracleCrashes records inputs on which the engine itself aborted (not a verdict: callers skip and count them)
+var oracleCrashes sync.Map
+
+func oracleCrashed(code string) bool {
+	_, ok := oracleCrashes.Load(code)
+	return ok
+}
+
 func syntaxBatch(n *Node, cases []synCase) []bool {
 	if len(cases) == 0 {
 		return nil
 	}
 	var resp synResp
-	n.Call(map[string]interface{}{"op": "syntax", "cases": cases}, &resp)
+	answered, crashed := n.CallC(map[string]interface{}{"op": "syntax", "cases": cases}, &resp, 10*time.Minute, true)
+	if crashed {
+		// the engine process died on one of the cases: isolate it by bisection
+		if len(cases) == 1 {
+			oracleCrashes.Store(cases[0].Code, true)
+			fmt.Fprintf(os.Stderr, "ORACLE-CRASH (skipped, not a verdict): %q goal=%s\n", cases[0].Code, cases[0].Goal)
+			return []bool{false}
+		}
+		h := len(cases) / 2
+		return append(syntaxBatch(n, cases[:h]), syntaxBatch(n, cases[h:])...)
+	}
+	if !answered {
+		fatalf("node worker did not answer within 10 minutes")
+	}
 	if resp.InfraError != "" || len(resp.R) != len(cases) {
 		fatalf("syntax op failed: %s", resp.InfraError)
 	}
@@ -131,6 +154,10 @@ func c13CheckBatch(c *Check, node *Node, inputs []string, words [][]string, src 
 	for i, it := range items {
 		it.v8s, it.v8m = res[2*i], res[2*i+1]
 		c.Eval(1)
+		if oracleCrashed(it.in) {
+			c.Sub("oracle_crash_skipped", 1)
+			continue
+		}
 		// Exclusions by construction (DESIGN §C13): esbuild parses every file as a possible
 		// module, so top-level `await` is always a keyword and HTML-like comment tokens are only
 		// meaningful in the script goal.
@@ -214,6 +241,10 @@ func c13CheckBatch(c *Check, node *Node, inputs []string, words [][]string, src 
 	for i, p := range pends {
 		c.Sub("output_syntax_checks", 1)
 		if !ores[i] {
+			if oracleCrashed(p.out) {
+				c.Sub("oracle_crash_skipped", 1)
+				continue
+			}
 			if c13DocumentedOutput(p.it.in, p.cfg, p.goal, p.it.v8s, p.it.v8m) {
 				c.Sub("documented_output_goal", 1)
 				continue
@@ -329,6 +360,15 @@ func runC13(c *Check) {
 			c13CheckBatch(c, pool.Get(w), ins[lo:hi], nil, "regexp-literals")
 		})
 		c.Set("regexp_literals", map[string]interface{}{"batches_done": done, "batches": nb, "size": len(ins), "atoms": len(atoms), "max_atoms": maxR})
+	}
+	// ---- explicit statement hazards (ASI, directives, labels on rewritten loops, label sets, `in` inside for-initializers)
+	{
+		var ins []string
+		for _, h := range asiHazards {
+			ins = append(ins, xProgram(h, ""))
+		}
+		c13CheckBatch(c, pool.Get(0), ins, nil, "statement-hazards")
+		c.Set("statement_hazards", map[string]interface{}{"size": len(ins)})
 	}
 	c.Set("alphabet_size", len(alpha))
 	c.Set("max_word_length", maxLen)
